@@ -54,9 +54,19 @@ import (
 
 const modPath = "github.com/php-any/origami"
 
-// package directories (relative to the repository root) whose map ranges and
-// package-level variables are reported
-var targets = []string{"runtime", "data", "node", "std/php", "std/php/core", "std/php/spl", "std/protowire", "std/serializer/json"}
+// package directories (relative to the repository root) whose map ranges are reported: the
+// anchored packages, the two decoders of DESIGN §4 row 25, the parser (class loading) and the
+// string-keyed-array functions of std/php/array
+var rangeTargets = []string{"runtime", "data", "node", "parser", "std/php", "std/php/core", "std/php/spl", "std/php/array", "std/protowire", "std/serializer/json"}
+
+// package-level state is a whole-process notion: every origami package linked into the
+// interpreter binary (go list -deps .) is scanned, except the command-line tooling (cmd/…,
+// internal/…), which a running script does not reach.
+var targets []string
+
+func stateScope(p string) bool {
+	return !strings.HasPrefix(p, "cmd") && !strings.HasPrefix(p, "internal") && p != ""
+}
 
 type listPkg struct {
 	ImportPath string
@@ -478,14 +488,31 @@ var osWrites = map[string]bool{"os.Chdir": true, "os.Setenv": true, "os.Unsetenv
 
 func main() {
 	a := ex.ParseArgs()
-	var tpaths []string
-	for _, t := range targets {
-		tpaths = append(tpaths, "./"+t)
-	}
-	deps, err := goList(a.Repo, append([]string{"-export", "-deps"}, tpaths...)...)
+	deps, err := goList(a.Repo, "-export", "-deps", ".")
 	if err != nil {
 		fmt.Fprintln(os.Stderr, err)
 		shape = append(shape, "go list -export failed")
+	}
+	isRangeTarget := map[string]bool{}
+	for _, t := range rangeTargets {
+		isRangeTarget[t] = true
+	}
+	for _, p := range deps {
+		if strings.HasPrefix(p.ImportPath, modPath+"/") {
+			if d := strings.TrimPrefix(p.ImportPath, modPath+"/"); stateScope(d) {
+				targets = append(targets, d)
+			}
+		}
+	}
+	sort.Strings(targets)
+	for _, t := range rangeTargets {
+		found := false
+		for _, u := range targets {
+			found = found || u == t
+		}
+		if !found {
+			shape = append(shape, "package not linked into the interpreter: "+t)
+		}
 	}
 	exports := map[string]string{}
 	byPath := map[string]listPkg{}
@@ -582,7 +609,9 @@ func main() {
 						for _, sp := range gd.Specs {
 							for _, v := range sp.(*ast.ValueSpec).Values {
 								if hasFuncLit(v) {
-									sites = append(sites, rangesIn(fset, info, fname, "<var-init>", v, nil)...)
+									if isRangeTarget[t] {
+										sites = append(sites, rangesIn(fset, info, fname, "<var-init>", v, nil)...)
+									}
 									writes = append(writes, writesIn(info, fname, "<var-init>", v, isTarget)...)
 								}
 							}
@@ -591,7 +620,9 @@ func main() {
 					continue
 				}
 				fn := recvName(fd)
-				sites = append(sites, rangesIn(fset, info, fname, fn, fd.Body, fd.Body)...)
+				if isRangeTarget[t] {
+					sites = append(sites, rangesIn(fset, info, fname, fn, fd.Body, fd.Body)...)
+				}
 				if fd.Recv == nil && fd.Name.Name == "init" {
 					continue
 				}
